@@ -79,7 +79,7 @@ def faults():
 
 def bounds(tier):
     return {"triples": len(triples()), "faults_per_triple": str(len(faults())) + (" (first 3 triples; a 1/23 slice + genuine for the others)" if tier != "thorough" else ""),
-            "key_forms": 2, "scenarios": ["fresh", "after-previous-auth", "same credentials, authentication expired", "live connection with stale data queued",
+            "key_forms": "bytes/bytes, hex/hex (all triples), hex/bytes and bytes/hex (4 triples)", "scenarios": ["fresh", "after-previous-auth", "same credentials, authentication expired", "live connection with stale data queued",
                           "expired authentication on a connection that carried > 65536 packets"]}
 
 
@@ -92,6 +92,10 @@ def shards(tier):
                 out.append((t, form, scen, (t >= 3 or scen == 3) and tier != "thorough"))
     out.append((0, 0, 4, True))
     out.append((9, 1, 4, True))
+    for t in (0, 1, 5, 10):
+        for form in (2, 3):
+            for scen in (0, 2):
+                out.append((t, form, scen, True))
     return out
 
 
@@ -183,8 +187,12 @@ def execute(tidx: int, form: int, scen: int, fault):
         try:
             if form == 0:
                 await ac.authenticate(token, key)
-            else:
+            elif form == 1:
                 await ac.authenticate(token.hex(), key.hex())
+            elif form == 2:
+                await ac.authenticate(token.hex(), key)          # mixed forms: each credential is converted on its own
+            else:
+                await ac.authenticate(token, key.hex())
             res = "ok"
         except AuthenticationError:
             res = "AuthenticationError"
